@@ -55,6 +55,8 @@ def _systems(tier):
     out.append(("3x3-plain", B.spec_of(A33, np.zeros(3), np.array([1.0, 1.25, 1.5]))))
     # zero and positive lower bounds in one system (masks that forbid a source with a positive lower bound are contradictory and skipped)
     out.append(("3x3-lb-mixed", B.spec_of(A33, np.array([0.0, 0.25, 0.0]), np.array([1.0, 1.25, 1.5]))))
+    # non-uniform receptor weights (the weighted error is what must not increase / be optimal)
+    out.append(("3x3-weighted", B.spec_of(A33, np.zeros(3), np.array([1.0, 1.25, 1.5]), None, 0.25, w=np.array([2.0, 0.5, 1.25]))))
     if tier != "quick":
         A34 = AL.A_palette(3, 4, seeded=False)[0][1]
         out.append(("3x4-plain", B.spec_of(A34, np.zeros(4), np.array([1.0, 1.25, 1.5, 1.75]))))
@@ -111,6 +113,7 @@ def run_unit(unit, rec):
     T = _image(Abar, c0, lo, hi)
     Bb = T - c0
     lbp, ubp = kw.get("lbp", 0.0), kw.get("ubp", 1.0)
+    wv = np.ones(m) if spec.get("w") is None else np.broadcast_to(np.asarray(B.arr(spec["w"]), dtype=float), (m,))
     try:
         from dreye.api import _verif
     except Exception:  # noqa
@@ -163,7 +166,7 @@ def run_unit(unit, rec):
         elif np.max(np.abs(Bp - (P @ X @ Abar.T + c0))) > 1e-9 * (1 + np.max(np.abs(Bp))):
             bad = ("e", "returned fitted capture is not the model's capture of opacities times intensities")
         else:
-            loss = lambda X_, P_: float(np.linalg.norm(P_ @ X_ @ Abar.T - Bb))  # noqa  (weights are 1)
+            loss = lambda X_, P_: float(np.linalg.norm(wv * (P_ @ X_ @ Abar.T - Bb)))  # noqa  (weighted error)
             # f: descent on every observed iteration
             if losses:
                 inc = np.diff(losses)
@@ -180,8 +183,8 @@ def run_unit(unit, rec):
                     G = (X @ Abar.T).T  # m x layers
                     worst = 0.0
                     for i in range(len(T)):
-                        opt, _ = O.box_lsq(G, Bb[i], np.full(layers, lbp), np.full(layers, ubp))
-                        worst = max(worst, float(np.linalg.norm(P[i] @ X @ Abar.T - Bb[i])) - opt)
+                        opt, _ = O.box_lsq(G, Bb[i], np.full(layers, lbp), np.full(layers, ubp), w=wv)
+                        worst = max(worst, float(np.linalg.norm(wv * (P[i] @ X @ Abar.T - Bb[i]))) - opt)
                     rec.stat_max("last_P_excess", worst)
                     if worst > 2e-2 + 0.02 * final:
                         bad = ("g", "an opacity row is not optimal given the final intensities (excess residual %.4g)" % worst)
